@@ -16,7 +16,7 @@ func init() {
 	register(&Rule{ID: "FD-02", Title: "lookup bound polarity: 'not found' exactly below the lower and above the upper bound in every lookup function",
 		Props: []string{"C05", "C06"}, Floor: 4, Run: runFD02})
 	register(&Rule{ID: "FD-04", Title: "frame arithmetic: padding in [0,7], encoded size a multiple of 8 and >= 8; scan loops advance by it",
-		Props: []string{"C01", "C02", "C09", "C11"}, Floor: 2, Run: runFD04})
+		Props: []string{"C01", "C02", "C09", "C11"}, Floor: 3, Run: runFD04})
 	register(&Rule{ID: "FD-05", Title: "loop shapes: verifier read-back covers [Start,End); CopyLogs covers [first,last]",
 		Props: []string{"C17", "C19"}, Floor: 2, Run: runFD05})
 	register(&Rule{ID: "FD-07", Title: "monotonic append: exactly index != last+1 is refused (WAL) and index != BaseIndex+len(offsets) (segment)",
@@ -476,9 +476,16 @@ func runFD04(p *Prog, r *RuleRun) {
 				if !ok {
 					break
 				}
-				// is this phi the offset of a ReadAt in the loop?
+				// is this phi (possibly converted) the offset of a ReadAt in the loop?
 				used := false
+				var users []ssa.Instruction
+				users = append(users, *phi.Referrers()...)
 				for _, ref := range *phi.Referrers() {
+					if cv, ok := ref.(*ssa.Convert); ok {
+						users = append(users, *cv.Referrers()...)
+					}
+				}
+				for _, ref := range users {
 					if c, ok := ref.(*ssa.Call); ok && strings.HasSuffix(eventName(c), ".ReadAt") {
 						used = true
 					}
@@ -502,7 +509,11 @@ func runFD04(p *Prog, r *RuleRun) {
 						continue
 					}
 					step := bo.Y
-					if cv, ok := step.(*ssa.Convert); ok {
+					for {
+						cv, ok := step.(*ssa.Convert)
+						if !ok {
+							break
+						}
 						step = cv.X
 					}
 					c, isCall := step.(*ssa.Call)
@@ -512,6 +523,16 @@ func runFD04(p *Prog, r *RuleRun) {
 				}
 				r.Check(ok2 && nBack > 0, key, posOf(p, phi), "the scan offset advances by encodedFrameSize(len) (>= 8, aligned) on every way back to the loop head",
 					"a frame scan loop can return to its head without advancing the read offset by a whole aligned frame: on damaged input it loops forever or reads misaligned headers")
+				// the cursor must be wide enough not to wrap: a 32-bit length field plus header and padding exceeds 32 bits
+				wide := false
+				if bt, ok := phi.Type().Underlying().(*types.Basic); ok {
+					switch bt.Kind() {
+					case types.Int64, types.Uint64, types.Int, types.Uint, types.Uintptr:
+						wide = true
+					}
+				}
+				r.Check(wide, funcDisplay(fn)+":scan-cursor-width", posOf(p, phi), "the scan cursor is a 64-bit integer: adding a frame size derived from a 32-bit length field cannot wrap",
+					fmt.Sprintf("the scan cursor has type %s: a damaged length field near 2^32 makes cursor + frame size wrap around, the scan stops advancing (or goes backwards) and recovery/dump never terminates", phi.Type()))
 			}
 		}
 	}
